@@ -158,10 +158,12 @@ Definition int_witness_in_range (k : int_key) (r : Z) : bool :=
 (* Equivocate (trapdoor λ = log_t s, ord = φ(N̂)/4 = modulus of λ): the result is
    r0 + x·ord with r0 = (r + λ(m − m')) mod ord and x drawn so that the result lies
    in the witness range; for m = m' the witness itself.  The sampled x is not
-   modelled: [int_equivocate_ok] is the relation the returned witness must satisfy. *)
-Definition int_equivocate_ok (k : int_key) (ord lambda m r m' r' : Z) : bool :=
+   modelled: [int_equivocate_ok] is the relation the returned witness must satisfy
+   for the opening to verify (the range is a matter of hiding, reported separately
+   through [int_witness_in_range]). *)
+Definition int_equivocate_ok (ord lambda m r m' r' : Z) : bool :=
   if (m =? m')%Z then (r' =? r)%Z
-  else (((r' - (r + lambda * (m - m'))) mod ord =? 0)%Z && int_witness_in_range k r').
+  else ((r' - (r + lambda * (m - m'))) mod ord =? 0)%Z.
 
 (* ===================================================================== *)
 (* indcpacom                                                              *)
